@@ -1151,6 +1151,25 @@ impl<'a> LL1Validator {
             }
         }
     }
+    /// Checks if the name is the left or right operand of a recursive rule branch.
+    fn is_recursive_operand(cst: &Cst<'_>, sema: &SemanticData<'a>, name: NodeRef) -> bool {
+        sema.recursive.values().any(|recursive| {
+            recursive.branches().iter().any(|branch| {
+                let (regex, left, right) = match branch {
+                    Recursion::Left(regex, left) => (regex, Some(*left), None),
+                    Recursion::Right(regex, right) => (regex, None, Some(*right)),
+                    Recursion::LeftRight(regex, left, right) => (regex, Some(*left), Some(*right)),
+                };
+                let Regex::Concat(concat) = regex else {
+                    return false;
+                };
+                concat
+                    .operands(cst)
+                    .enumerate()
+                    .any(|(i, op)| op.syntax() == name && (Some(i) == left || Some(i) == right))
+            })
+        })
+    }
     /// Calculates the follow set for each regular expression within a rule.
     fn calc_follow_regex(
         cst: &Cst<'_>,
@@ -1172,11 +1191,15 @@ impl<'a> LL1Validator {
                         .or_default()
                         .len();
                     let follow = sema.follow_sets.entry(regex.syntax()).or_default().clone();
+                    // only the operands of a recursive branch are governed by the binding
+                    // power, other references of a rule to itself count as outer context
+                    let is_operand = rule_regex == name_rule_regex
+                        && Self::is_recursive_operand(cst, sema, name.syntax());
                     let left_rec_local_follow = sema
                         .left_rec_local_follow_sets
                         .entry(name_rule_regex.syntax())
                         .or_default();
-                    if rule_regex != name_rule_regex {
+                    if !is_operand {
                         left_rec_local_follow.extend(follow.clone());
                     }
                     sema.follow_sets
